@@ -844,6 +844,39 @@ fn op_stream<T: Elem>(c: &mut Ctx, complex: bool, id: u64, notify: bool, ec: u32
         c.fail(&format!("numeric.{}.streaming_ne_buffered", k), format!("streamed {} bytes, buffered {} bytes; write_message equal: {}, into_wire_bytes equal: {}", streamed.len(), buffered.len(), written == buffered, wire == buffered));
     }
     {
+        // user callbacks that fail: a body writer returning Err, a sink failing after some bytes — the
+        // writers must return the error (no panic) and what reached the sink is a prefix of the frame
+        struct FailAfter { out: Vec<u8>, left: usize }
+        impl std::io::Write for FailAfter {
+            fn write(&mut self, buf: &[u8]) -> std::io::Result<usize> {
+                if self.left == 0 {
+                    return Err(std::io::Error::new(std::io::ErrorKind::BrokenPipe, "sink closed"));
+                }
+                let n = buf.len().min(self.left);
+                self.out.extend_from_slice(&buf[..n]);
+                self.left -= n;
+                Ok(n)
+            }
+            fn flush(&mut self) -> std::io::Result<()> { Ok(()) }
+        }
+        for left in [0usize, 1, 47, 48, 48 + q.len(), 49 + q.len(), buffered.len().saturating_sub(1)] {
+            if left >= buffered.len() {
+                continue;
+            }
+            let mut sink = FailAfter { out: Vec::new(), left };
+            let r = catch(|| if complex { repe::write_message_complex_slice(&mut sink, h, q, &cvec_of::<T>(payload)) } else { repe::write_message_typed_slice(&mut sink, h, q, &vec_of::<T>(payload)) });
+            // (whether the writer reports the error is not the property's business; a panic or other bytes are)
+            if r.is_err() || !buffered.starts_with(&sink.out) {
+                c.fail(&format!("numeric.{}.failing_sink", k), format!("sink failing after {} bytes: result {}, bytes in the sink are a prefix of the frame: {}", left, match &r { Ok(Ok(())) => "Ok", Ok(Err(_)) => "Err", Err(_) => "PANIC" }, buffered.starts_with(&sink.out)));
+            }
+        }
+        let mut sink = Vec::new();
+        let r = catch(|| repe::write_message_streaming(&mut sink, h, q, 3, |_w: &mut Vec<u8>| Err::<(), std::io::Error>(std::io::Error::new(std::io::ErrorKind::Other, "producer failed"))));
+        if r.is_err() {
+            c.fail(&format!("numeric.{}.failing_body_writer", k), "a body writer returning Err made the streaming writer panic".into());
+        }
+    }
+    {
         // two frames into ONE sink, one after the other: the concatenation of the two builder frames
         let mut sink = Vec::new();
         let ok = catch(|| {
@@ -1205,6 +1238,18 @@ fn op_seq<T: Elem>(c: &mut Ctx, s1: &str, s2: &str, qafter: bool, qlen: usize, c
     if frame != fresh.to_vec() {
         c.fail(&format!("numeric.seq.{}_then_{}.frame_ne_fresh", s1, s2), format!("the frame ({} bytes) differs from the fresh builder's ({} bytes)", frame.len(), fresh.to_vec().len()));
     }
+    {
+        // a third setter on the same builder (the first kind again): still only the last one counts
+        let three = finish(apply_setter::<T>(apply_setter::<T>(apply_setter::<T>(start(), s1, p1, cap), s2, p2, cap), s1, p1, cap));
+        let fresh1 = if s1 == "bytes" {
+            finish(apply_setter::<T>(start().body_format_code(both.header.body_format), s1, p1, 0))
+        } else {
+            finish(apply_setter::<T>(start(), s1, p1, 0))
+        };
+        if three.to_vec() != fresh1.to_vec() {
+            c.fail(&format!("numeric.seq.{}_then_{}_then_{}.frame_ne_fresh", s1, s2, s1), "after three setters the frame is not the fresh builder's frame for the last one".into());
+        }
+    }
     if written != frame || wire != frame {
         c.fail(&format!("numeric.seq.{}_then_{}.routes_differ", s1, s2), format!("write_message equal: {}, into_wire_bytes equal: {}", written == frame, wire == frame));
     }
@@ -1304,6 +1349,10 @@ fn op_hseq<T: Elem>(c: &mut Ctx, kind: &str, wrap: bool, cls: u8, code: u8, q: &
             "panics" => panic!("{}", String::from("handler panic (String)")),
             "panicstr" => panic!("handler panic (&str)"),
             "panicint" => std::panic::panic_any(7u32),
+            "slow" => {
+                std::thread::sleep(std::time::Duration::from_millis(12));
+                Ok(())
+            }
             _ => Ok(()),
         }
     }
@@ -1391,7 +1440,7 @@ fn op_hseq<T: Elem>(c: &mut Ctx, kind: &str, wrap: bool, cls: u8, code: u8, q: &
                         c.fail(&format!("{}.{}", tag, if aligned { "aligned_but_copied" } else { "borrowed_unaligned" }), format!("step {}: payload aligned={}, borrowed={}", i, aligned, flag == "b"));
                     }
                     let want: Option<Vec<u8>> = match hk.as_str() {
-                        "same" => Some(indep_body("regular", cls, code, T::W, k, &body[d..d + k * T::W], 0)),
+                        "same" | "slow" => Some(indep_body("regular", cls, code, T::W, k, &body[d..d + k * T::W], 0)),
                         "bytes" => Some(indep_body("regular", 2, 0, 1, k * T::W, &body[d..d + k * T::W], 0)),
                         _ => None,
                     };
@@ -2364,7 +2413,7 @@ fn generate(seed: u64, thorough: bool) -> Vec<String> {
                 _ => dispatch!(cls, code, real_aligned(q.len(), &p)),
             };
             let fmt = if g.r.chance(1, 9) { *g.r.pick(&[0u16, 2, 3, 65535]) } else { 1 };
-            let hk = *g.r.pick(&["same", "same", "same", "bytes", "err", "err", "panics", "panicstr", "panicint"]);
+            let hk = *g.r.pick(&["same", "same", "slow", "bytes", "err", "err", "panics", "panicstr", "panicint"]);
             let mis = if g.r.chance(1, 2) { 0 } else { g.r.below(16) };
             line.push_str(&format!(" {} {} {} {}", hk, fmt, mis, hex(&body)));
         }
